@@ -64,6 +64,7 @@ class Model:
         self.frames: list[dict] = []         # slot fills per macro invocation
         self.fail_stack: dict[int, list] = {}  # id(exc) -> use_stack snapshot
         self.fail_info: dict[int, tuple] = {}  # id(exc) -> (site, fn depth)
+        self.fail_oid: dict[int, int] = {}     # id(exc) -> occurrence id
         self.lists: dict[str, int] = {}
         self.tr_stack: list[dict] = []
         self.fn_depth = 0             # nesting of render functions
@@ -87,6 +88,7 @@ class Model:
             except BaseException as exc:
                 self.fail_stack[id(exc)] = list(self.use_stack)
                 self.fail_info[id(exc)] = (e["id"], self.fn_depth)
+                self.fail_oid[id(exc)] = e.get("oid")
                 raise
         if k == "load":
             return ("template", e["file"])
@@ -442,6 +444,7 @@ class Model:
             res["raise"] = [type(e).__name__, e]
         if res["raise"] is not None:
             res["use_stack"] = self.fail_stack.get(id(res["raise"][1]), [])
+            res["fail_oid"] = self.fail_oid.get(id(res["raise"][1]))
         res["history"] = list(self.probe.history)
         res["handler"] = list(self.handler.calls) if self.handler else []
         res["handled"] = self.handled
